@@ -864,6 +864,10 @@ where
                 "Configuration changed"
             );
 
+            if self.config.max_packet_size != config.max_packet_size {
+                // send_message expects the buffer capacity to match
+                self.send_buf = Vec::with_capacity(config.max_packet_size.get());
+            }
             self.config = config;
             Ok(())
         }
